@@ -7,6 +7,7 @@
 //	cs     signed requests x single-field mutations against strict ContentSecurityHandler,
 //	crypt  payload round trips through CryptionHandler,
 //	script handler scripts over {Write, Flush, WriteHeader} behind CryptionHandler / ContentSecurityHandler,
+//	engine route groups with different signature configurations through the real rest engine,
 //	hist   time histories (tokens presented repeatedly, virtual clock jumps) on one Authorize instance,
 //
 // each judged by an independent verifier written from the property statement (jwt.go: verifyToken,
@@ -17,6 +18,7 @@ import (
 	"fmt"
 	"os"
 	"runtime"
+	"sort"
 	"strings"
 	"sync"
 	"time"
@@ -254,6 +256,7 @@ func runSeqFamily(r *vlib.Report, thorough bool, until time.Time) {
 	}
 	wg.Wait()
 	summary := map[string]any{}
+	var allPend []pending
 	for _, p := range parts {
 		r.AddStates(p.res.States)
 		r.AddTransitions(p.res.Transitions)
@@ -272,8 +275,20 @@ func runSeqFamily(r *vlib.Report, thorough bool, until time.Time) {
 			r.NotExhaustive("rotation search " + name + ": " + p.res.Cap)
 		}
 		for _, v := range p.pend {
-			r.Violation(v.Class, "[seq "+name+"] "+v.Desc, v.Replay)
+			v.Desc = "[seq " + name + "] " + v.Desc
+			allPend = append(allPend, v)
 		}
+	}
+	// one violation per class is kept: report the shortest history of each class
+	histLen := func(v pending) int {
+		if rc, ok := v.Replay.(replayCase); ok && rc.Seq != nil {
+			return len(rc.Seq.Ops)
+		}
+		return 1 << 20
+	}
+	sort.SliceStable(allPend, func(i, j int) bool { return histLen(allPend[i]) < histLen(allPend[j]) })
+	for _, v := range allPend {
+		r.Violation(v.Class, v.Desc, v.Replay)
 	}
 	r.Scenario("rotation-searches", summary)
 }
@@ -395,6 +410,11 @@ func replay(cfg *vlib.Config) {
 	case "crypt":
 		p = checkCrypt(*rc.Crypt)
 		fmt.Printf("replay crypt: %s\n", rc.Crypt.String())
+	case "engine":
+		cleanup := engSetupKeys()
+		p = checkEngine(*rc.Engine, nil)
+		cleanup()
+		fmt.Printf("replay engine: %s\n", rc.Engine.String())
 	case "script":
 		p = checkScript(*rc.Script)
 		fmt.Printf("replay handler script: %s\n", rc.Script.String())
@@ -462,7 +482,12 @@ func main() {
 	kj := cryptJobs(thorough)
 	timed("crypt", func() { runJobs(r, kj, at(0.75)) })
 	sj := scriptJobs(thorough)
-	timed("script", func() { runJobs(r, sj, at(0.80)) })
+	timed("script", func() { runJobs(r, sj, at(0.78)) })
+	ej := engineJobs()
+	timed("engine", func() {
+		defer engSetupKeys()()
+		runJobs(r, ej, at(0.84))
+	})
 	// last: the shards of the time-history family get whatever is left of the budget
 	timed("hist", func() { runHistFamily(r, thorough) })
 	fmt.Println("phase wall times:", phase)
@@ -470,7 +495,7 @@ func main() {
 	r.Scenario("families", map[string]any{
 		"jwt_jobs (bases + mutated bases)": len(jj), "cs_jobs (bases)": len(cj), "crypt_jobs (chunks of 64)": len(kj),
 		"jwt_base_requests": len(allJWTBases(jwtCfgs)), "cs_base_requests": len(csBases(thorough)), "crypt_cases": len(cryptCases(thorough)),
-		"handler_scripts": len(allScripts(thorough)), "script_cases (routes x scripts)": len(scriptCases(thorough)), "time_history_shards": len(histShardNames(thorough)),
+		"handler_scripts": len(allScripts(thorough)), "script_cases (routes x scripts)": len(scriptCases(thorough)), "time_history_shards": len(histShardNames(thorough)), "engine_servers (sequences of 2-3 route groups)": len(ej),
 	})
 	b := mkBase(jwtCfgs[0], "s", "HS256", 2, [3]int{3, 1, 1})
 	sizes := map[string]int{}
@@ -485,6 +510,7 @@ func main() {
 	r.Sample(map[string]any{"family": "jwt", "mutation": "alg=none/sig-empty", "authorization": "Bearer " + b64u([]byte(stdHeader("none"))) + "." + b.p + "."})
 	r.Sample(map[string]any{"family": "seq", "history": "SSPXEJ", "meaning": "S/P valid by secret/prev, X bad signature, E expired, J clock jump past reset"})
 	r.Sample(map[string]any{"family": "hist", "history": []string{"a", "+1s", "a", "b", "+25h", "q"}, "meaning": "a: exp=T+1, b: nbf=T+1 exp=T+2, q: by prevSecret nbf=T+1; x~ / x^ tampered copies; +1s / +25h virtual clock jumps; every request judged at the current virtual time"})
+	r.Sample(map[string]any{"family": "engine", "case": engCase{Groups: []string{"S1", "none", "S2"}, Target: 0, Kind: "k2", Type: "1"}})
 	r.Sample(map[string]any{"family": "script", "case": scriptCase{Route: "cs", Type: "1", ReqLen: 5, Script: []string{"w5", "f", "w16"}}})
 	r.Sample(map[string]any{"family": "cs", "case": csCase{Base: csBases(thorough)[0], Mut: csMut{Kind: "ts-signed", I: 2}}})
 	r.Sample(map[string]any{"family": "crypt", "case": cryptCases(thorough)[40]})
@@ -493,6 +519,6 @@ func main() {
 	r.Assume("VerifySignature reads the wall clock: each content-security case is built relative to the current unix second and re-run if the second changed while it was served")
 	r.Assume("clock: jwt.TimeFunc, timex.Now (rewritten core/timex/relativetime.go) and time.Now inside the rewritten rest/token package read one process-global virtual clock that only the clock-jump operations of the time-history family move (worker processes, one history at a time); real time is not virtualised, so anything kept on a real-time TTL outlives every history. The parser-level rotation search still models its jump by constructing a parser with the same counters and an aged resetTime (white-box)")
 	r.Assume("handler scripts: the status is bracketed (net/http first-commit semantics, or the code of the script's first WriteHeader - a buffering middleware may let a WriteHeader that follows a buffered Write through); a response without any written byte may be empty or decrypt to nothing")
-	r.SetRule("case = (configuration, wire-level request): JWT = base request (cfg x signer x alg x claim set x exp/nbf/iat in {absent,now-1,now,now+1}) or one single-field mutation of it (complete lists in jwt.go: alg/typ/header substitutions x signature candidates, every bit flip of header/payload/signature, every truncation, re-signing with 20 wrong/confusable keys, segment counts, bad base64, Authorization shapes); seq = every request history over the op alphabet up to the depth bound; cs = base signed request x one mutation (timestamp window edges, method, target, every body bit, every signature character, fingerprint, ciphertext bytes, type, missing attributes); crypt = key size x payload length x pattern x handler mode; hist = every history (full tree, no merging) over {5 tokens with exp/nbf just ahead x (genuine, signature bit flipped, time claims edited under the old signature), clock +1s, clock +25h} on one live Authorize instance up to the length bound, each request judged at the current virtual time; script = route (CryptionHandler x key size x request length, content security type 1 / type 0 / no body) x every handler script over {Write 5/16/0(/33) bytes, Flush, WriteHeader 201/404} up to length 3 (4 thorough), the client decrypting the whole response body as one message. Every case reaches the gate under test and is judged by the independent verifier; distinct = distinct wire requests (jwt), distinct parser states or paths (seq), distinct histories (hist), distinct descriptors (cs, crypt, script).")
+	r.SetRule("case = (configuration, wire-level request): JWT = base request (cfg x signer x alg x claim set x exp/nbf/iat in {absent,now-1,now,now+1}) or one single-field mutation of it (complete lists in jwt.go: alg/typ/header substitutions x signature candidates, every bit flip of header/payload/signature, every truncation, re-signing with 20 wrong/confusable keys, segment counts, bad base64, Authorization shapes); seq = every request history over the op alphabet up to the depth bound; cs = base signed request x one mutation (timestamp window edges, method, target, every body bit, every signature character, fingerprint, ciphertext bytes, type, missing attributes); crypt = key size x payload length x pattern x handler mode; hist = every history (full tree, no merging) over {5 tokens with exp/nbf just ahead x (genuine, signature bit flipped, time claims edited under the old signature), clock +1s, clock +25h} on one live Authorize instance up to the length bound, each request judged at the current virtual time; engine = every server of 2-3 route groups over {no signature, strict/non-strict x private keys {K1},{K2},{K1,K2}} bound through the real rest engine x target group x request built for K1 / K2 / mismatched fingerprint and secret / unknown fingerprint / no header x body type, accepted iff valid under a key of THAT group; script = route (CryptionHandler x key size x request length, content security type 1 / type 0 / no body) x every handler script over {Write 5/16/0(/33) bytes, Flush, WriteHeader 201/404} up to length 3 (4 thorough), the client decrypting the whole response body as one message. Every case reaches the gate under test and is judged by the independent verifier; distinct = distinct wire requests (jwt), distinct parser states or paths (seq), distinct histories (hist), distinct descriptors (cs, crypt, script, engine).")
 	r.Finish()
 }
